@@ -316,7 +316,9 @@ namespace GeographicLib {
       fy = -lat * _rlatres;
     int
       ix = int(floor(fx)),
-      iy = min((_height - 1)/2 - 1, int(floor(fy)));
+      // lat = +/-90 must stay in the first/last row of cells: rounding of
+      // 90 * _rlatres can push floor(fy) to -(_height - 1)/2 - 1
+      iy = max(-(_height - 1)/2, min((_height - 1)/2 - 1, int(floor(fy))));
     fx -= ix;
     fy -= iy;
     iy += (_height - 1)/2;
